@@ -153,7 +153,11 @@ enum MEv {
     Disconnect(Vec<u8>),
 }
 
-pub struct MultiEngine;
+/// `c02 = true`: the same simulation, but only the Net-level parts of property C02 are reported
+/// (a missing or too-late deadline of the multi-peer endpoint, a call that never returns).
+pub struct MultiEngine {
+    pub c02: bool,
+}
 
 fn v(class: &str, keys: &[(&str, &str)], obs: String) -> Violation {
     Violation::new("C20", class, keys, obs)
@@ -240,7 +244,12 @@ impl<'c> W<'c> {
         let got = self.net.needs_tick().to_opt().map(|t| t.as_usecs_since_epoch());
         let want = self.shadows.values().filter_map(|s| s.conn.needs_tick().to_opt().map(|t| t.as_usecs_since_epoch())).min();
         if got != want {
-            return Some(v("needs-tick-differs", &[], format!("after {}: the endpoint reports deadline {:?} but the earliest deadline of the per-address connections is {:?}", what, got, want)));
+            let how = match (got, want) {
+                (None, Some(_)) => "missing",
+                (Some(g), Some(w)) if g > w => "later",
+                _ => "earlier",
+            };
+            return Some(v("needs-tick-differs", &[("how", how)], format!("after {}: the endpoint reports deadline {:?} but the earliest deadline of the per-address connections is {:?}", what, got, want)));
         }
         None
     }
@@ -388,7 +397,28 @@ impl Engine for MultiEngine {
             ctx.ops_executed += 1;
             match self.step(&mut w, ctx, op) {
                 Outcome::Ok(()) => {}
-                Outcome::Stop(v) => return v,
+                Outcome::Stop(v) => {
+                    if !self.c02 {
+                        return v;
+                    }
+                    // C02 mode: only deadline / termination observations of the multi-peer endpoint count
+                    if let Some(a) = &ctx.aborted_other {
+                        if a.starts_with("C02 budget") {
+                            ctx.aborted_other = None;
+                            return Some(Violation::new("C02", "unbounded-loop", &[("layer", "net")], "a call into the multi-peer endpoint never returned (callback budget exceeded)".into()));
+                        }
+                    }
+                    return match v {
+                        Some(x) if x.sig.get("class").map(|c| c == "needs-tick-differs").unwrap_or(false) && x.sig.get("how").map(|h| h != "earlier").unwrap_or(false) => {
+                            Some(Violation::new("C02", "no-deadline", &[("layer", "net"), ("how", x.sig.get("how").map(|s| s.as_str()).unwrap_or(""))], format!("multi-peer endpoint: {}", x.observation)))
+                        }
+                        Some(x) => {
+                            ctx.aborted_other = Some(format!("C20 {:?}", x.sig));
+                            None
+                        }
+                        None => None,
+                    };
+                }
             }
             if let Some(v) = w.check_pids() {
                 return Some(v);
